@@ -41,7 +41,8 @@ ASSUMPTIONS = ['scheduling points are line events in frames of <repo>/pydbml (py
 
 def bounds(tier):
     return {'two_preemption_pairs_call_granularity': 0 if tier == 'quick' else len(SCHED2_PAIRS), 'three_thread_triples': 0 if tier == 'quick' else len(SCHED3_TRIPLES),
-            'cold_start_shared_write_pairs': 0 if tier == 'quick' else len(SCHEDW_PAIRS),
+            'cold_start_shared_write_pairs': 2 if tier == 'quick' else len(SCHEDW_PAIRS),
+            'cold_start_shared_write_point_stride': 8 if tier == 'quick' else 1,
             'history_length_full_alphabet': 2, 'history_length_reduced_alphabet': 3 if tier == 'quick' else 4, 'reduced_alphabet': len(reduced(tier)), 'preemptions': 1,
             'threads': 2, 'schedule_pairs': len(sched_pairs(tier)), 'calls': len(CALLS)}
 
@@ -469,7 +470,7 @@ def explore_two_preemptions(p, pair, chunk, nchunks):
     check_census(p, case, f'after the two-preemption schedules of {pair}')
 
 
-def explore_cold_writes(p, pair, chunk, nchunks):
+def explore_cold_writes(p, pair, chunk, nchunks, stride=1):
     """cold start, scheduling points = every attribute write to a shared grammar element (pyparsing's lazy set-up, run by whichever
     thread parses first): the first thread is preempted at each of its writes, the other does the remaining set-up and its whole
     parse, the first resumes"""
@@ -481,8 +482,8 @@ def explore_cold_writes(p, pair, chunk, nchunks):
             return
         n = c[t]
         total += n
-        for k in range(n):
-            if k % nchunks != chunk:
+        for k in range(0, n, stride):
+            if (k // stride) % nchunks != chunk:
                 continue
             run_schedule(p, pair, t, ((t, k),), True, case, 'writes')
             p['states'] += 1
@@ -611,6 +612,11 @@ def units(tier, seed):
     for k in range(0, len(CALLS), 13):
         us.append(('fresh', k, tier))
     us.append(('freerun', 0, tier))
+    if tier == 'quick':
+        # every 8th write point of two pairs (on a tree whose grammar is complete at import time there are none)
+        for pi in (0, 1):
+            for ch in range(16):
+                us.append(('schedw', (pi, ch, 16, 8), tier))
     if tier != 'quick':
         for pi in range(len(SCHED2_PAIRS)):
             for ch in range(16):
@@ -620,7 +626,7 @@ def units(tier, seed):
                 us.append(('sched3', (ti, ch, 8), tier))
         for pi in range(len(SCHEDW_PAIRS)):
             for ch in range(32):
-                us.append(('schedw', (pi, ch, 32), tier))
+                us.append(('schedw', (pi, ch, 32, 1), tier))
     return us
 
 
@@ -669,8 +675,8 @@ def work(unit):
         free_running(p, rounds=2 if tier == 'quick' else 6)
         p['samples'].append({'mode': 'freerun', 'threads': 6, 'note': 'supplementary pass, not the deciding step'})
     elif mode == 'schedw':
-        pi, ch, nch = k
-        explore_cold_writes(p, SCHEDW_PAIRS[pi], ch, nch)
+        pi, ch, nch, stride = k
+        explore_cold_writes(p, SCHEDW_PAIRS[pi], ch, nch, stride)
         p['samples'].append({'mode': 'schedw', 'pair': [list(c) for c in SCHEDW_PAIRS[pi]], 'preemptions': 1, 'points': 'writes to shared grammar elements, cold start'})
     elif mode == 'sched3':
         ti, ch, nch = k
